@@ -28,13 +28,8 @@ from typing import Any
 
 from framework import BUILD, Check, cN, cbool, clist, cstr, load_corpus
 
-MUT = os.environ.get("VERIF_MUT_SRC")  # private mutated copy of /repo/src (mutation tests only)
-if MUT:
-    sys.path.insert(0, MUT)
-    os.environ["VERIF_C12_SRC"] = str(Path(MUT) / "pyopenapi_gen")
-
-import pipeline  # noqa: E402
-import tables_C12  # noqa: E402
+import pipeline
+import tables_C12
 
 TRUSTED = [
     "Coq 8.16.1 kernel + vm_compute (finite-table theorems, witness theorems, correspondence evaluation)",
@@ -350,8 +345,9 @@ def c_case(c: dict) -> str:
 
 
 # ---------------------------------------------------------------- pipeline cases
-def run_layout(name: str, spec: dict, pkg: str, core: str | None) -> dict:
-    g = pipeline.generate(spec, package=pkg, core_package=core)
+def run_layout(name: str, spec: dict, pkg: str, core: str | None, g: pipeline.Generated | None = None) -> dict:
+    if g is None:
+        g = pipeline.generate(spec, package=pkg, core_package=core)
     res: dict[str, Any] = {"spec": name, "package": pkg, "core_package": core, "ok": g.ok, "error": g.error}
     try:
         if not g.ok:
@@ -411,20 +407,23 @@ def main(chk: Check, replay: dict | None = None) -> int:
     try:
         cases: list[dict] = []
         # ---- 1. relative-path functions and CPython's rule
-        cases += rel_cases(chk, 1500 if chk.thorough else 300, scratch)
+        cases += rel_cases(chk, 4000 if chk.thorough else 800, scratch)
         n_rel = len(cases)
 
         # ---- 2. real packages
         layouts = LAYOUTS_QUICK + (LAYOUTS_MORE if chk.thorough else [])
         jobs = [(n, f(), p, c) for n, f in SPECS.items() for (p, c) in layouts]
-        if not chk.thorough:  # quick: every spec on two layouts, the kitchen sink on all
-            jobs = [j for j in jobs if j[0] == "kitchen_sink" or (j[2], j[3]) in (LAYOUTS_QUICK[1], LAYOUTS_QUICK[3])]
+        if not chk.thorough:  # quick: every spec on three layouts, the kitchen sink on all
+            jobs = [j for j in jobs if j[0] == "kitchen_sink" or (j[2], j[3]) in (LAYOUTS_QUICK[1], LAYOUTS_QUICK[2], LAYOUTS_QUICK[3])]
         for c in load_corpus("C12"):
             i = c["input"]
             if i.get("k") == "layout":
                 jobs.insert(0, (i["spec"], SPECS[i["spec"]](), i["package"], i["core_package"]))
-        with ThreadPoolExecutor(max_workers=6) as ex:
-            results = list(ex.map(lambda j: run_layout(*j), jobs))
+        # generation is sequential (pipeline.generate redirects sys.stdout, which is process-global);
+        # the subprocess imports and the scans run in parallel
+        gens = [pipeline.generate(j[1], package=j[2], core_package=j[3]) for j in jobs]
+        with ThreadPoolExecutor(max_workers=8) as ex:
+            results = list(ex.map(lambda jg: run_layout(*jg[0], g=jg[1]), zip(jobs, gens)))
 
         seen_stmt: dict[str, dict] = {}
         dist = {"layouts": len(results), "files": 0, "statements": 0, "relative": 0, "nested_or_tc": 0,
